@@ -80,6 +80,8 @@ def _surf_frame(ctx, srf, pu, pv, U, V, Pw, su, sv, rational):
 
 
 def _curve_setup(ctx, p, mult, rational, norm=True):
+    # norm: True (default options) / False (normalize_kv=False, knot vector kept as given) / 'tuple' (the same, handed over as a tuple)
+    as_tuple, norm = (norm == 'tuple'), (norm is True)
     U, inner, n = shapes.make_kv(ctx, p, mult, normalized=norm)
     shapes.separated_knots(ctx, U, MULT_TOL)
     if not norm:
@@ -89,6 +91,8 @@ def _curve_setup(ctx, p, mult, rational, norm=True):
     P = shapes.net(ctx, 'P', n, 2)
     W = shapes.weights(ctx, 'w', n) if rational else None
     crv = shapes.build_curve(ctx, p, U, P, W, normalize_kv=norm)
+    if as_tuple:
+        crv.knotvector = tuple(U)
     Pw = shapes.homog(P, W)
 
     def C(t):
@@ -101,6 +105,7 @@ def _curve_setup(ctx, p, mult, rational, norm=True):
 
 
 def _surf_setup(ctx, pu, pv, mu, mv, rational, norm=True):
+    as_tuple, norm = (norm == 'tuple'), (norm is True)
     U, iu, su = shapes.make_kv(ctx, pu, mu, prefix='a', normalized=norm)
     V, iv, sv = shapes.make_kv(ctx, pv, mv, prefix='b', normalized=norm)
     shapes.separated_knots(ctx, U, MULT_TOL)
@@ -111,6 +116,8 @@ def _surf_setup(ctx, pu, pv, mu, mv, rational, norm=True):
     P = shapes.net(ctx, 'P', su * sv, 3)
     W = shapes.weights(ctx, 'w', su * sv) if rational else None
     srf = shapes.build_surface(ctx, pu, pv, U, V, P, su, sv, W, normalize_kv=norm)
+    if as_tuple:
+        srf.knotvector_u, srf.knotvector_v = tuple(U), tuple(V)
     Pw = shapes.homog(P, W)
 
     def S(a, b):
@@ -139,6 +146,7 @@ def _curve_shapes(tier):
     # clamped knot vectors kept as given (normalize_kv=False, symbolic range [a, b])
     out.append(dict(p=2, mult=[1], rational=False, norm=False))
     out.append(dict(p=1, mult=[1, 1], rational=True, norm=False))
+    out.append(dict(p=2, mult=[2], rational=False, norm='tuple'))      # handed over as a tuple; a knot of full multiplicity
     return out
 
 
@@ -168,6 +176,42 @@ def split_curve(ctx, p, mult, rational, norm=True):
         ctx.check_true('piece[%d].degree_rational' % k, piece.degree == p and bool(piece.rational) == rational)
         if a <= u and u <= b:
             ctx.check_eq_vec('piece[%d].coincides' % k, piece.evaluate_single(_pull_back(piece.domain, a, b, u)), C(u))
+
+
+@scenario('C07', fns=['operations.split_curve', 'operations.decompose_curve', 'knotvector.normalize', 'abstract.Curve.knotvector'],
+          quick=[dict(precision=3, x='3/10', op='split'), dict(precision=6, x='3/10', op='split'),
+                 dict(precision=3, x=None, op='decompose')],
+          # decimal rounding goes through text ("{:.Nf}".format), which the exact tier treats as the identity (A2/A3):
+          # the same contract at run time on native floats
+          native=lambda tier: [dict(precision=3, x='3/10', op='split'), dict(precision=6, x='3/10', op='split'),
+                               dict(precision=3, x=None, op='decompose')])
+def split_low_precision(ctx, precision, x, op):
+    """requires: a concrete curve built with the public precision= option, its knots and the split parameter exactly
+                 representable in that many decimals (so the input itself is not rounded)
+       ensures : the pieces coincide with the original exactly: the pieces' own knot vectors (re-normalised) are NOT
+                 rounded to the input's precision"""
+    L = ctx.lit
+    U = [L(0)] * 3 + [L(Fraction(1, 8)), L(Fraction(1, 2))] + [L(1)] * 3
+    P = [[L(0), L(0)], [L(1), L(3)], [L(2), L(-1)], [L(4), L(2)], [L(5), L(0)]]
+    crv = ctx.geomdl('BSpline').Curve(precision=precision)
+    crv.degree = 2
+    crv.ctrlpts = [list(q) for q in P]
+    crv.knotvector = list(U)
+    ctx.check_eq_vec('input.knotvector_not_rounded', crv.knotvector, U)
+    u = shapes.param_in(ctx, 'u', L(0), L(1))
+    ops = ctx.geomdl('operations')
+    if op == 'split':
+        pieces, bounds = ops.split_curve(crv, L(Fraction(x))), [L(0), L(Fraction(x)), L(1)]
+    else:
+        pieces, bounds = ops.decompose_curve(crv), [L(0), U[3], U[4], L(1)]
+    ctx.check_true('piece_count', len(pieces) == len(bounds) - 1)
+    # one symbolic parameter (exact tier) and a fixed sample of concrete ones (they are what the native runs see)
+    for t in [u] + [L(Fraction(i, 20)) for i in range(1, 20, 2)]:
+        want = spec.curve_point(2, U, P, t)
+        for k, piece in enumerate(pieces):
+            a, b = bounds[k], bounds[k + 1]
+            if a <= t and t <= b:
+                ctx.check_eq_vec('piece[%d].coincides' % k, piece.evaluate_single(_pull_back(piece.domain, a, b, t)), want)
 
 
 @scenario('C07', fns=['operations.decompose_curve', 'operations.split_curve', 'operations.insert_knot',
@@ -215,7 +259,10 @@ def _split_surf_shapes(tier):
     # knot vectors kept as given (normalize_kv=False): different symbolic domains per direction, so the split parameter of one
     # direction may coincide with an end of the OTHER direction's domain
     out += [dict(pu=1, pv=2, mu=[], mv=[1], d='v', rational=False, norm=False),
-            dict(pu=2, pv=1, mu=[1], mv=[], d='u', rational=False, norm=False)]
+            dict(pu=2, pv=1, mu=[1], mv=[], d='u', rational=False, norm=False),
+            # handed over as tuples, with a knot of full multiplicity in the split direction (no insertion needed there)
+            dict(pu=1, pv=2, mu=[], mv=[2], d='v', rational=False, norm='tuple'),
+            dict(pu=1, pv=1, mu=[1], mv=[], d='u', rational=False, norm='tuple')]
     return out
 
 
@@ -263,7 +310,8 @@ def _dec_surf_shapes(tier):
            dict(pu=2, pv=2, mu=[2], mv=[1], dirs='u', rational=False),
            dict(pu=2, pv=1, mu=[], mv=[1, 1], dirs='uv', rational=False),
            dict(pu=2, pv=1, mu=[], mv=[], dirs='uv', rational=False),
-           dict(pu=1, pv=1, mu=[1], mv=[], dirs='uv', rational=True)]
+           dict(pu=1, pv=1, mu=[1], mv=[], dirs='uv', rational=True),
+           dict(pu=1, pv=1, mu=[1], mv=[1], dirs='uv', rational=False, norm='tuple')]
     if tier == 'thorough':
         out += [dict(pu=2, pv=1, mu=[1, 1], mv=[1], dirs='uv', rational=False),
                 dict(pu=3, pv=2, mu=[1, 2], mv=[1, 1], dirs='uv', rational=False),
@@ -278,10 +326,10 @@ def _dec_surf_shapes(tier):
 @scenario('C07', fns=['operations.decompose_surface', 'operations.split_surface_u', 'operations.split_surface_v',
                       'operations.insert_knot', 'BSpline.Surface.ctrlpts2d', 'knotvector.normalize'],
           quick=lambda: _dec_surf_shapes('quick'), thorough=lambda: _dec_surf_shapes('thorough'))
-def decompose_surface(ctx, pu, pv, mu, mv, dirs, rational):
+def decompose_surface(ctx, pu, pv, mu, mv, dirs, rational, norm=True):
     """one patch per non-empty knot interval of each decomposed direction (per pair for 'uv', u outermost), Bezier knot
     vector in each decomposed direction, the other direction untouched, each patch == original on its rectangle"""
-    U, V, iu, iv, su, sv, Pw, srf, S = _surf_setup(ctx, pu, pv, mu, mv, rational)
+    U, V, iu, iv, su, sv, Pw, srf, S = _surf_setup(ctx, pu, pv, mu, mv, rational, norm)
     u = shapes.param_in(ctx, 'u', U[0], U[-1])
     v = shapes.param_in(ctx, 'v', V[0], V[-1])
     pieces = ctx.geomdl('operations').decompose_surface(srf, decompose_dir=dirs)
